@@ -92,6 +92,11 @@ CHECKS = {
         technique="runtime history monitor: long-lived contexts vs fresh-context replay under a sequential model of `ans`; registry/settings hashed before and after histories",
         text="Seeded histories of 5-60 queries of every kind (plain, time results, conversions, definitions, commands, substances, dates, failing queries of each error family, ans/ANS/_) on long-lived bundled and currency contexts with the feature on and off: every reply must equal the fresh-context reply for the model's previous answer, `ans` must follow the model, and the database, settings and load-time temporaries must be unchanged after each history.",
         note="`now`-dependent queries are exempt from reply comparison; after a time result either ans behaviour is accepted; histories are sampled, not enumerated."),
+    "C19": dict(
+        category="exploration", design_ref="DESIGN.md §2 C19",
+        technique="runtime monitoring with sanitizers: the real alloc.rs compiled into a reference-model monitor (content patterns, quiescent-point conservation at barriers) run natively and under Miri (many seeds), ThreadSanitizer, AddressSanitizer+LeakSanitizer and valgrind memcheck",
+        text="Bounded-exhaustive single-thread histories (length <= 4 quick, <= 5 plus reduced-alphabet length 6 thorough) over the operation/size/limit grid against a sequential model checked after every operation, seeded random histories of length 200, and 2..16 threads on one allocator with usage = sum of live sizes and peak >= certainly-reached usage checked at barriers; any sanitizer report in the workload is a violation.",
+        note="Holds on the histories and interleavings produced (fingerprints counted in evidence), not on all schedules; Miri workloads are small (about 1e4 operations per seed); transient over-charge refusals are allowed by the statement."),
 }
 
 PENDING = {}
